@@ -11,7 +11,7 @@ import zlib
 from datetime import datetime, timezone
 from decimal import Context
 from io import BytesIO
-from struct import error as StructError
+from struct import error as StructError, pack, unpack
 from typing import IO, Union, Optional, Generic, TypeVar, Iterator, Dict
 from warnings import warn
 
@@ -607,13 +607,13 @@ SKIPS = {
 
 
 def maybe_promote(data, writer_type, reader_type):
-    if writer_type == "int":
+    if writer_type == "int" or writer_type == "long":
         # No need to promote to long since they are the same type in Python
-        if reader_type == "float" or reader_type == "double":
+        if reader_type == "double":
             return float(data)
-    if writer_type == "long":
-        if reader_type == "float" or reader_type == "double":
-            return float(data)
+        if reader_type == "float":
+            # an Avro float is a binary32 value
+            return unpack("<f", pack("<f", float(data)))[0]
     if writer_type == "string" and reader_type == "bytes":
         return data.encode()
     if writer_type == "bytes" and reader_type == "string":
